@@ -25,7 +25,58 @@ CHECKS = {
    text="Theorems (Coq, all ranks/extents/chunk shapes): reading the chunks written for the old extent under the new extent equals resize_arr (elements inside both extents kept, new space zero, outside gone) for any single resize mixing growing and shrinking dimensions, and for two resizes when no intermediate extent is below both outer extents; resize_arr laws. C13_shrink_grow_refuted exhibits the one failing class (shrink then grow without a rewrite), a listed KNOWN-FINDING. Ties: unit (Go reader placement under new dims vs model) and history-level: grow/shrink/rewrite sequences over ranks 1-3, fixed and unlimited maxima, requests beyond the maximum (must be rejected), shape and values after reopen vs the oracle.",
    note="Trusted: as C01. Resize's header rewrite (dataspace message) is tied only at history level. Known finding C13-shrink-then-grow is excluded from the generated gating histories by construction and re-confirmed on every run.",
    design="7/C13", technique="Coq theorem read_after_resize = resize_arr + refuted-class witness + history-level tie"),
+ "C02": dict(
+   text="Theorems (Coq, all attribute histories on one object, name hash abstract): with collision-free names the attributes listed after any sequence of write/delete calls have unique names and are exactly the bindings of the finite map built from the successful calls (C02_refines_map*), per-call answers agree (delete succeeds exactly on present names), any non-Ok answer leaves the state identical (C02_err_unchanged), every refusal has one of a short list of named reasons (header full, index full at 371, heap full, object too large, encode error), the compact->dense transition preserves the listing as a permutation, storage form is irrelevant; the collision class is refuted with a concrete lookup3 pair (listed KNOWN-FINDING). Ties: (unit) attribute histories through the real API vs the Coq model per call and on the final attribute set; (history) histories of 3..300 calls on datasets and groups hovering around the threshold incl. all histories of length <= 3/5 over 2 names x 3 values, dumped after reopen and judged by the map oracle.",
+   note="Trusted: transcription of attribute_write.go / attribute_modify.go / objectheader_write.go with B-tree and heap as minimal abstract interfaces (their detailed models are C14/C15), tools/histlib.py oracle, hist harness. Known finding: names with equal lookup3 hash are confused in dense storage.",
+   design="7/C02", technique="Coq refinement to a finite map + unit and history-level differential ties"),
+ "C03": dict(
+   text="Theorems (Coq, all creation histories, every threshold/repair configuration): the reader's tree of the writer's heap/symbol-node bookkeeping equals the specification tree and per-call ok/err agree (duplicates, missing or non-group parents, missing targets rejected; refusal exactly at capacity); decoded names of a group are pairwise distinct in every reachable state; a failing call leaves groups, heaps, nodes and object kinds unchanged; hard links resolve to the target's object. Excluded by named predicates with witness lemmas and listed as KNOWN-FINDINGs: hard links whose target is a group, soft/external links. Ties: (unit) real LocalHeap / SymbolTableNode / linkToParent / Open+Walk vs the model and a Python oracle, thresholds and repair switches read from the current source; (history) deep/wide/long-name/mixed creation sequences with duplicate, missing-parent and malformed requests judged after reopen by the tree oracle.",
+   note="Trusted: transcription of group_write.go / link_write.go / localheap.go / symboltable_node.go / group.go walk (validated each run), tools/histlib.py, hist harness; nesting below the reader's 1024-level limit.",
+   design="7/C03", technique="Coq refinement (writer bookkeeping + reader walk vs spec tree) + unit and history-level ties"),
+ "C04": dict(
+   text="Theorems (Coq store model, arbitrary operation lists, all repair configurations): every in-place header rewrite stays within the reserved 7+255 bytes (proved from the 255-byte check, not assumed); every byte range written by an operation lies in extents owned by its target, in the parent group's heap/symbol node, or in extents it allocated itself; hence all extents of every other object are untouched (C04_frame). Refutation witnesses for exact-size headers and exact-size link headers document what the fixes bought. Ties: (unit) allocation trace and changed byte ranges after every call on the real file vs ownership reconstructed from the trace, compared with the model's allocation sequence (fidelity diagnostic); (history) all orders of {create X, create Y, write X, write Y, attribute on X, attribute on Y, hard link to X, resize X} (sampled quick, all 40320 thorough) and random interleavings over 2-6 objects, every untouched object compared after reopen.",
+   note="Trusted: store model abstracts byte contents (extents, sizes, write sets); transcription validated by c04unit on >50k steps; global-heap collections and filters not in the store model.",
+   design="7/C04", technique="Coq frame theorem over an extent/ownership store model + byte-range diff tie + history-level tie"),
+ "C05": dict(
+   text="Theorems (Coq): extents_ok (sorted sweep: in bounds, below EOF, pairwise disjoint) is sound and complete, so the tie's disjointness verdict is computed by a proved function; the append-only allocator hands out disjoint increasing blocks tiling [initial, EOF) for every request list; in every reachable state of the store model all extents are pairwise disjoint and end at or below the allocator EOF and, after Close, the file size (C05Store); the stale-EOF defect is refuted for the old code and proved repaired. Tie: an independent decoder written from the HDF5 format specification (tools/h5spec.py, Python) walks every file produced by generated histories (all superblock versions, filters, dense attributes, links, resizes, vlen, multi-session): extents inside the file and below the superblock EOF, pairwise disjoint (Coq extents_ok on the same lists), signatures/versions/sizes/checksums consistent (Coq crc32 and lookup3 on sampled ranges), decoded tree and values equal the logical oracle; each tolerated format deviation has a tag that must be a listed KNOWN-FINDING.",
+   note="Trusted: tools/h5spec.py is the specification reading (Python, not Coq) of the format subset the writer produces; unsupported features raise errors. 31 listed format deviations (e.g. CRC-32 where the spec uses lookup3, missing OHDR checksum) are genuine non-conformances without small repairs.",
+   design="7/C05", technique="Coq extent/allocator theorems + independent spec decoder over generated files"),
+ "C06": dict(
+   text="Theorems (Coq): the value decoding the comparison relies on - dec_int (byte order, signedness, size) and dec_string (three paddings) - is the inverse of the format's encoding (bijection on well-formed elements, BE = reverse LE, range), plus refutation lemmas for the attribute ReadValue transcription (unsigned-as-signed, listed). Tie (exhaustive over the bundled corpus): for every file with an h5dump DDL every object is compared: group membership, kinds, shapes, types, integer/string values exactly, floats per DDL token precision; on every opened file typed values are compared with the Coq decoding of the raw element bytes and announced links with Children(). A discrepancy not in the committed (file, object, kind) list is a VIOLATION; listed ones are grouped into 8 root causes (KNOWN-FINDINGs).",
+   note="Trusted: tools/ddl.py (h5dump DDL parser), the corpus DDL files as reference, float comparison at the printed precision. The Go reader itself is not modelled beyond value decoding; errors returned by the reader are not gating (unsupported features).",
+   design="7/C06", technique="Coq decoding spec + exhaustive corpus comparison against shipped h5dump output"),
+ "C10": dict(
+   text="Theorems (Coq store model): reopen(close s) keeps all extents valid and disjoint and later allocations are disjoint from all of them (needs every extent <= file size after Close: the Close extension; refuted without it); a session whose calls issue no store command leaves bytes, allocator and file size unchanged; failed creations are quiet with the link pre-check (refuted without). Tie: 2-6 open-modify-close sessions (attribute upserts/deletes through OpenDataset, contiguous overwrite, creation attempts) with a logical dump after every session vs the oracle; sessions without successful modification must keep the SHA-256.",
+   note="Trusted: as C04 (store model) plus tools/histlib.py across sessions. OpenDataset offers Write for contiguous layout only (chunked overwrite is refused by 38055d0).",
+   design="7/C10", technique="Coq reopen-invariant theorem + multi-session history tie with byte identity for no-op sessions"),
+ "C11": dict(
+   text="Theorems (Coq, byte-level transcriptions of encoder and decoder per element with checked slicing and outcome Ok/Err/Panic): dec(enc x) = Ok(projection x) and length(enc x) = size formula for dataspace, layout v3, datatype (fixed, float, string, reference, opaque, vlen, array, enum, compound-as-bytes), attribute v3, superblock v0/v2/v3 (incl. CRC-32), object header v2 and v1, link, link-info, attribute-info, symbol-table message (32 theorems); the dataspace encoder never emits an ambiguous length. Tie: generated well-formed values per element: Go Encode bytes == model bytes, Go Parse(Encode x) == x, encoding twice identical; truncations and single-byte changes of valid encodings: Go outcome class and value == model. Covered by tie only: compound member lists, filter pipeline message (C08), structures.ParseLinkMessage. Known finding: compound with a non-last string/reference/opaque/array/enum/vlen member does not parse back.",
+   note="Trusted: hand transcriptions validated each run; continuation chunks outside the object-header model; determinism is definitional in Gallina and checked on the Go side by double encoding.",
+   design="7/C11", technique="Coq round-trip theorems per codec + byte-exact differential tie incl. malformed inputs"),
+ "C14": dict(
+   text="Theorems (Coq, all inputs): the Go name hash equals lookup3 hashlittle(.,0) on every byte string (induction on 12-byte blocks); for every history in every rebalancing mode the index keeps records sorted, count views equal, refuses inserts at capacity without change; under pairwise distinct hashes it returns exactly what a finite map returns and ends with the live keys' records; it is reproduced byte for byte by write and load (CRC-checked header and leaf) at any point; modes never influence results or bytes. Collision confusion and node sizes below 10 are proved refutations. Tie: histories up to 450 operations crossing capacity 371, all length <= 3 histories over two names, four modes, store/rewrite at random points, corrupted images; all observables incl. bytes compared with the model and judged by a Python map/lookup3/decoder oracle; hash on lengths 0-1 exhaustively, every length 0-64, multiples of 12.",
+   note="Trusted: hand transcription of btreev2_*.go, bitwise CRC-32 model (compared on every structure), in-memory file/allocator glue. Not modelled: the background goroutine (C18). Known finding: hash-equal names are confused.",
+   design="7/C14", technique="Coq refinement (state machine to map, codec round trip, mode erasure) + differential tie + refutation witness"),
+ "C16": dict(
+   text="Theorems (Coq store model, all operation lists): a failing call writes only into extents it allocated itself (or, for a hard link, the target's own header) and leaves the writer's bookkeeping unchanged; with the link pre-check and attribute-info check every other failing call neither allocates nor writes (the two remaining harmless orphan cases are stated); C02_err_unchanged / C03_err_unchanged give the same at attribute-storage and namespace level. Tie: valid operations interleaved with operations chosen to fail at each validation and capacity point (32-entry groups, name heaps, 255-byte headers, dense storage, oversized values on handles with cached headers, closed writer, invalid arguments, later sessions); content after Close must equal the oracle that ignores failed calls, no call may panic, Close repeated.",
+   note="Trusted: as C04; panics are caught by the harness and reported as violations; Go runtime fatal errors would kill the harness (reported as machinery failure).",
+   design="7/C16", technique="Coq failed-call frame theorems + failure-injection history tie"),
+ "C19": dict(
+   text="Theorems (Coq, all strategies/constraints/observation lists/clock readings, float64 via Coq SpecFloat bit-exact): the selector returns none or an allowed mode; confidence < min gives none; the reported confidence is the strategy's bit for bit and within [0,1] for the built-in strategy (NaN behaviour stated exactly); a gate-passing decision less than MinStabilityPeriod after the last recorded one keeps the mode (saturating int64 clock arithmetic, backwards clocks), mode changes are at least one period apart under a monotone clock; Evaluate sessions reduce to selector runs; the configuration only selects a delete entry point and records/results are configuration-independent. Tie: 10^4 (quick) / 10^6 (thorough) SelectConfig decisions and Evaluate sessions compared bit for bit with the model plus an independent oracle; attribute histories x 7 configurations through the public API compared after reopen and against a map.",
+   note="The literal pairwise reading of stability is refuted (C19_stability_pairwise_refuted) and stated in recorded-decision/dwell form; Part A theorem is over a record-list model with abstract hash, the file-level claim rests on the differential runs; lazy/incremental/smart options are largely inert in the pinned tree.",
+   design="7/C19", technique="Coq invariant proofs over a fold + bit-exact differential tie + independent oracle"),
 }
+import json as _json
+for _pid, _f, _key in (("C12", "notes/c12_proposals.json", "manifest_check"), ("C08", "notes/C08-manifest.json", None)):
+    try:
+        _d = _json.load(open(os.path.join(V, _f)))
+        _e = (_d[_key] if _key else _d)[_pid]
+        CHECKS[_pid] = dict(text=_e["text"], note=_e["note"], design=_e.get("design", "7/" + _pid), technique=_e["technique"])
+    except Exception as _ex:
+        pass
+PENDING = {"C08"}   # merged but temporarily not claimed (model being updated to the new LZF stream order)
+for _p in PENDING:
+    CHECKS.pop(_p, None)
 NOT_APPLICABLE = []
 
 def main():
